@@ -60,7 +60,10 @@ def key(func, node):
 
 def attr_writes(repo, attr):
     """All `<expr>.attr = value` assignments in the repo: list of (FuncInfo, receiver ast, value ast, stmt)."""
-    out = []
+    cache = repo.__dict__.setdefault("_attr_writes", {})
+    if attr in cache:
+        return cache[attr]
+    out = cache[attr] = []
     for f in repo.all_functions():
         for n in ast.walk(f.node):
             tgts = []
